@@ -4,7 +4,8 @@
    end tags still owed; each with the model's verdict: None = accepted (state_stop), Some i = the event with index i
    is the first one refused.  Events are coded 0 = close, 1 = text, 2+i = open of the i-th tag of all_tags. *)
 From Coq Require Import List Arith Bool.
-From Gama Require Import GkfGen GkfModel GkfDefs.
+From Coq Require String.
+From Gama Require Import GkfGen GkfModel GkfDefs GkfAttrDefs.
 Import ListNotations.
 
 Definition ev_of (n : nat) : ev tag :=
@@ -58,3 +59,15 @@ Definition enum (n : nat) : list (list nat * option nat * bool * bool) :=
   flat_map (fun c => let w := [c; 0] in
                      (w, verdict w, verdicts_agree w, in_xsd_grammar w) :: match step (Running state_start) (ev_of c) with Failed _ => [] | o' => enum_from n 1 o' [c] end)
            (seq 2 (length all_tags)).
+
+(* attribute layer: the element opened by event j of w carries one more attribute named a: does the handler of the
+   transition let the name through?  None: event j is not an open event reached by the automaton *)
+Definition attr_verdict (c : list nat * nat * String.string) : option bool :=
+  let '(w, j, a) := c in
+  match run (Running state_start) (map ev_of (firstn j w)), nth_error w j with
+  | Running s, Some e => match ev_of e with
+                         | Open t => match start_step s t with SGo _ => Some (accepts_attr s t a) | SErr _ => None end
+                         | _ => None
+                         end
+  | _, _ => None
+  end.
